@@ -272,7 +272,6 @@ class ReqStub(Native):
 class JsonObj(VDict):
     """Instance of {"type": "object", "properties": ...}: concrete keys;
     optional keys carry a presence Bool (self.present[key])."""
-    __slots__ = ('present', 'extra_allowed')
 
     def __init__(self, items=None, present=None):
         VDict.__init__(self, items)
@@ -281,16 +280,22 @@ class JsonObj(VDict):
 
 class JsonMap(Native):
     """Instance of an object with patternProperties: symbolic keys of sort
-    Str; values are instances of the sub-schema, created on demand and
-    cached per key term."""
+    Str; the value under key k is an instance of the sub-schema whose leaves
+    are functions of k (and of the enclosing indices)."""
 
     def __init__(self, I, schema, name, key_pattern, value_schema,
-                 min_props=0):
+                 min_props=0, path=()):
         self.schema = schema
         self.name = name
         self.key_pattern = key_pattern
         self.value_schema = value_schema
-        self.dom = z3.Const(name + '.dom', z3.ArraySort(StrSort, z3.BoolSort()))
+        self.path = tuple(path)
+        ds = z3.ArraySort(StrSort, z3.BoolSort())
+        if path:
+            f = z3.Function(name + '.dom', *([t.sort() for t in path] + [ds]))
+            self.dom = f(*path)
+        else:
+            self.dom = z3.Const(name + '.dom', ds)
         self.cache = {}
         self.min_props = min_props
         self.seq = None
@@ -299,21 +304,17 @@ class JsonMap(Native):
     def value_at(self, I, kterm):
         key = kterm.sexpr()
         if key not in self.cache:
-            self.cache[key] = instance(I, self.value_schema,
-                                       '%s[%d]' % (self.name, len(self.cache)))
+            self.cache[key] = instance(I, self.value_schema, self.name + '[]',
+                                       self.path + (kterm,))
         return self.cache[key]
 
-    def key_facts(self, I, kterm):
-        """What validation guarantees about a key."""
-        pat = self.key_pattern
-        I.ex.assume(z3.Function('matches', StrSort, StrSort, z3.BoolSort())(
-            kterm, str_const(pat)))
-
     def sequence(self, I, name):
-        if self.seq is None:
+        if self.seq is None or self.seq_owner is not I:
             base = I._enum(self.dom, 'str', self.name, self)
-            I.ex.assume(base.len >= self.min_props)
+            if I.ex.qdepth == 0 and not self.path:
+                I.ex.assume(base.len >= self.min_props)
             self.seq = base
+            self.seq_owner = I
         return self.seq
 
     def truth(self, I):
@@ -384,21 +385,28 @@ class _JsonMapMethod(Native):
 
 
 class JsonList(Native):
-    """Instance of {"type": "array", "items": S} of symbolic length."""
+    """Instance of {"type": "array", "items": S} of symbolic length; the i-th
+    item is an instance whose leaves are functions of i."""
 
-    def __init__(self, I, schema, name):
+    def __init__(self, I, schema, name, path=()):
         self.schema = schema
         self.name = name
-        self.len = z3.Int(name + '.len')
-        I.ex.assume(self.len >= schema.get('minItems', 0))
+        self.path = tuple(path)
+        if path:
+            self.len = z3.Function(name + '.len', *([t.sort() for t in path] +
+                                                    [z3.IntSort()]))(*path)
+        else:
+            self.len = z3.Int(name + '.len')
+            I.ex.assume(self.len >= schema.get('minItems', 0))
         self.cache = {}
 
     def sequence(self, I, name):
         def elem(I_, i):
-            key = z3.simplify(i).sexpr()
+            key = z3.simplify(i).sexpr() if not isinstance(i, int) else str(i)
+            it = i if not isinstance(i, int) else z3.IntVal(i)
             if key not in self.cache:
                 self.cache[key] = instance(I_, self.schema.get('items', {}),
-                                           '%s[%s]' % (self.name, len(self.cache)))
+                                           self.name + '[]', self.path + (it,))
             return self.cache[key]
         return _Seq(self.len, elem, self)
 
@@ -412,10 +420,47 @@ class JsonList(Native):
         return self
 
 
-_inst_counter = [0]
+def string_facts(I, term, schema):
+    """What a validated string is known to satisfy (from the real schema)."""
+    import re as _re
+    pat = schema.get('pattern')
+    if schema.get('minLength', 0) >= 1 or (pat and _re.search(pat, '') is None):
+        I.ex.assume(z3.Function('str_nonempty', StrSort, z3.BoolSort())(term))
+    if pat and pat.startswith('^CUSTOM_'):
+        I.ex.assume(z3.Function('custom_prefixed', StrSort, z3.BoolSort())(term))
 
 
-def instance(I, schema, name):
+def _leaf(I, name, sort, path):
+    """Scalar leaf: a constant at top level, a function of the enclosing
+    indices inside containers."""
+    if not path:
+        return z3.Const(I.ex.fresh_name(name), sort)
+    f = z3.Function(name, *([t.sort() for t in path] + [sort]))
+    return f(*path)
+
+
+def _fact(I, path, mk):
+    """Assume a validation fact about a leaf; inside containers the fact
+    holds for every index (it is a property of the validated document)."""
+    if not path:
+        I.ex.assume(mk(()))
+        return
+    vs = [z3.Const('ix!%d' % k, t.sort()) for k, t in enumerate(path)]
+    key = ('jsonfact', str(mk(tuple(vs))))
+    if key in I.ghost:
+        return
+    I.ghost[key] = True
+    I.ex.hyp(ops.forall(vs, mk(tuple(vs))))
+    # and the ground instance at hand (keeps simple paths quantifier-free)
+    if all(not _has_bound(t) for t in path):
+        I.ex.assume(mk(tuple(path)))
+
+
+def _has_bound(t):
+    return False
+
+
+def instance(I, schema, name, path=()):
     """A symbolic instance of the (real) JSON-schema dict `schema`."""
     t = schema.get('type')
     if isinstance(t, list):
@@ -423,10 +468,10 @@ def instance(I, schema, name):
         others = [x for x in t if x != 'null']
         if len(others) != 1:
             raise Undecided('schema type list %r' % (t,))
-        v = instance(I, dict(schema, type=others[0]), name)
+        v = instance(I, dict(schema, type=others[0]), name, path)
         if nullable:
             if isinstance(v, Sym):
-                v.none = z3.Bool(I.ex.fresh_name(name + '?null'))
+                v.none = _leaf(I, name + '?null', z3.BoolSort(), path)
             else:
                 raise Undecided('nullable non-scalar in schema')
         return v
@@ -437,53 +482,75 @@ def instance(I, schema, name):
             if len(pats) != 1 or schema.get('properties'):
                 raise Undecided('object schema mixing properties and patterns')
             (pat, sub), = pats.items()
-            m = JsonMap(I, schema, I.ex.fresh_name(name), pat, sub,
-                        schema.get('minProperties', 0))
+            m = JsonMap(I, schema, name if path else I.ex.fresh_name(name),
+                        pat, sub, schema.get('minProperties', 0), path)
             m.closed = schema.get('additionalProperties', True) is False
             return m
         props = schema.get('properties', {})
         required = set(schema.get('required', []))
         o = JsonObj()
         for k, sub in props.items():
-            o.items[k] = instance(I, sub, '%s.%s' % (name, k))
+            o.items[k] = instance(I, sub, '%s.%s' % (name, k), path)
             if k not in required:
-                o.present[k] = z3.Bool(I.ex.fresh_name('%s.has.%s' % (name, k)))
+                o.present[k] = _leaf(I, '%s.has.%s' % (name, k),
+                                     z3.BoolSort(), path)
         o.extra_allowed = schema.get('additionalProperties', True) is not False
         return o
     if t == 'array':
-        return JsonList(I, schema, I.ex.fresh_name(name))
+        items = schema.get('items', {})
+        if items.get('type') in ('string', 'integer') and not path:
+            ety = 'str' if items['type'] == 'string' else 'int'
+            lst = I.fresh_list(name, ety)
+            I.ex.assume(lst.len >= schema.get('minItems', 0))
+            return lst
+        return JsonList(I, schema, name if path else I.ex.fresh_name(name), path)
     if t == 'integer':
-        v = I.fresh(name, 'int')
+        v = Sym(_leaf(I, name, z3.IntSort(), path), 'int')
+        f = z3.Function(name, *([x.sort() for x in path] + [z3.IntSort()])) \
+            if path else None
         if 'minimum' in schema:
-            I.ex.assume(v.t >= int(schema['minimum']))
+            mn = int(schema['minimum'])
+            _fact(I, path, lambda ix: (f(*ix) if path else v.t) >= mn)
         if 'maximum' in schema:
-            I.ex.assume(v.t <= int(schema['maximum']))
+            mx = int(schema['maximum'])
+            _fact(I, path, lambda ix: (f(*ix) if path else v.t) <= mx)
         return v
     if t == 'number':
-        v = I.fresh(name, 'real')
+        v = Sym(_leaf(I, name, z3.RealSort(), path), 'real')
         # A-real: python's json accepts NaN / Infinity and jsonschema's
         # `maximum` does not reject NaN: non-finiteness is a ghost flag
-        nf = z3.Bool(I.ex.fresh_name(name + '?nonfinite'))
+        nf = _leaf(I, name + '?nonfinite', z3.BoolSort(), path)
         I.ghost.setdefault('nonfinite', {})[v.t.sexpr()] = nf
-        if 'maximum' in schema:
-            I.ex.assume(z3.Implies(z3.Not(nf), v.t <= z3.RealVal(repr(float(schema['maximum'])))))
-        if 'minimum' in schema:
-            I.ex.assume(z3.Implies(z3.Not(nf), v.t >= z3.RealVal(repr(float(schema['minimum'])))))
+        if not path:
+            if 'maximum' in schema:
+                I.ex.assume(z3.Implies(z3.Not(nf), v.t <= z3.RealVal(
+                    repr(float(schema['maximum'])))))
+            if 'minimum' in schema:
+                I.ex.assume(z3.Implies(z3.Not(nf), v.t >= z3.RealVal(
+                    repr(float(schema['minimum'])))))
         return v
     if t == 'string':
-        v = I.fresh(name, 'str')
+        v = Sym(_leaf(I, name, StrSort, path), 'str')
+        f = z3.Function(name, *([x.sort() for x in path] + [StrSort])) \
+            if path else None
+        tm = (lambda ix: f(*ix)) if path else (lambda ix: v.t)
         if schema.get('format') == 'uuid':
-            I.ex.assume(z3.Function('is_uuid_like', StrSort, z3.BoolSort())(v.t))
-        if 'pattern' in schema:
-            I.ex.assume(z3.Function('matches', StrSort, StrSort, z3.BoolSort())(
-                v.t, str_const(schema['pattern'])))
-        if schema.get('minLength', 0) >= 1:
-            I.ex.assume(z3.Function('str_nonempty', StrSort, z3.BoolSort())(v.t))
+            p_ = z3.Function('is_uuid_like', StrSort, z3.BoolSort())
+            _fact(I, path, lambda ix: p_(tm(ix)))
+        import re as _re
+        pat = schema.get('pattern')
+        if schema.get('minLength', 0) >= 1 or (pat and _re.search(pat, '') is None):
+            p2 = z3.Function('str_nonempty', StrSort, z3.BoolSort())
+            _fact(I, path, lambda ix: p2(tm(ix)))
+        if pat and pat.startswith('^CUSTOM_'):
+            p3 = z3.Function('custom_prefixed', StrSort, z3.BoolSort())
+            _fact(I, path, lambda ix: p3(tm(ix)))
         if 'enum' in schema:
-            I.ex.assume(z3.Or(*[v.t == str_const(e) for e in schema['enum']]))
+            _fact(I, path, lambda ix: z3.Or(*[tm(ix) == str_const(e)
+                                               for e in schema['enum']]))
         return v
     if t == 'boolean':
-        return I.fresh(name, 'bool')
+        return Sym(_leaf(I, name, z3.BoolSort(), path), 'bool')
     if t == 'null':
         return None
     if t is None:
@@ -502,6 +569,18 @@ def extract_json_contract(I, args, kwargs):
     ok = z3.Bool(I.ex.fresh_name('body_valid'))
     if not I.ex.branch(ok):
         I.raise_(webob.exc.HTTPBadRequest)
+    body = args[0]
+    prov = I.ghost.get('fmt_provenance', {})
+    if isinstance(body, Sym) and body.t.sexpr() in prov:
+        # JSON text built by formatting ONE string into '{"<key>": "%s"}'
+        # (update_resource_class): the validated value is that string
+        # (A-lib; JSON escapes inside the value are not modelled)
+        args_ = prov[body.t.sexpr()]
+        props = schema.get('properties', {})
+        if len(args_) == 1 and isinstance(args_[0], Sym) and len(props) == 1:
+            (k, sub), = props.items()
+            if k in schema.get('required', []):
+                string_facts(I, args_[0].t, sub)
     return instance(I, schema, 'body')
 
 
